@@ -6,32 +6,47 @@ CFG = dict(
           "once, in per-connection order on the shared transport), C18_no_crash, C18_cancel_unblocks, C18_cancel_settles, "
           "C18_cancel_errors (after Cancel reads/writes fail: no crash, no call blocked in a quiescent state, only errors once settled) "
           "C18_stop_dead (after Stop every quiescent state has a dead run loop and dead writer goroutines) and C18_run_alive (the run loop "
-          "ends only by Stop or a failed shared Read, never by a Cancel(key)) in coq/Props/C18.v, "
+          "ends only by Stop or a failed shared Read, never by a Cancel(key)) and C18_after_cancel_fresh (once Cancel(k) is processed every envelope "
+          "with key k that the run loop reads, the very next one included, is routed to an instance created after the Cancel - announced, "
+          "carrying the key - never to the cancelled one) in coq/Props/C18.v, "
           "over all label sequences of the small-step model coq/Model/Demux.v (unbounded keys, envelopes, calls; any interleaving); "
           "the model is run lock-step against the real goat.Demux on every run.",
     props="Props/C18.v",
     theorems=["C18_route_exact", "C18_route_live", "C18_route_key", "C18_one_instance", "C18_route_uncancelled",
               "C18_announce_once", "C18_announce_first_use", "C18_write_exact", "C18_calls", "C18_no_crash",
-              "C18_cancel_unblocks", "C18_cancel_settles", "C18_cancel_errors", "C18_stop_dead", "C18_run_alive"],
+              "C18_cancel_unblocks", "C18_cancel_settles", "C18_cancel_errors", "C18_stop_dead", "C18_run_alive",
+              "C18_after_cancel_fresh"],
     imports=["Model.Demux", "Check.C18c"],
     case_type="c18case",
     find_bad_from="find_bad_from",
     go_tags="px",
     rigs=[dict(test="TestC18", timeout_quick=300, timeout_thorough=1200)],
     reason_text={"1": "the real Demux's observation differs from every outcome of the Gallina model (Model/Demux.v, all orders of internal rules)",
-                 "2": "route: what the logical connections of a key returned is not the in-order, once-each, unchanged sub-sequence of the envelopes delivered with that key (more lost than Cancels)",
-                 "3": "announce: a key was announced while it already had a live connection, or before any envelope carried it",
+                 "2": "route: what the logical connections of a key returned is not the in-order, once-each, unchanged sub-sequence of the envelopes delivered with that key "
+                      "(more lost than Cancels, or an envelope lost that was delivered AFTER the last Cancel of its key that could have cost it)",
+                 "3": "announce: a key was announced while it already had a live connection, or before any envelope carried it, or an envelope whose key "
+                      "had no live connection arrived while the run loop was free and no connection was announced for it (first use, also after a Cancel)",
                  "4": "write: an envelope on the shared transport is not the unchanged envelope of an accepted logical Write, or appears twice, out of per-connection order, or is missing",
-                 "5": "cancel: a panic, a call blocked on a cancelled connection at a quiescent point, or a call issued after the Cancel that did not fail",
+                 "5": "cancel: a panic, a call blocked on a cancelled connection at a quiescent point, a call issued after the Cancel that did not fail, "
+                      "or Demux.Cancel / Demux.Stop itself had not returned at a quiescent point (o_ctl: e.g. it waits for a hand-off in progress "
+                      "or for a consumer that is not reading)",
                  "6": "stop: the run loop or a writer goroutine is alive at a quiescent point after Stop",
                  "8": "alive: the run loop ended although Stop was not called and the shared transport's Read had not failed",
                  "7": "end-to-end: an RPC through the real Demux ended differently from the same RPC on a direct connection"},
     rule="lock-step in synctest bubbles on the real goat.Demux + logical connections (one action, synctest.Wait, snapshot: announcements, "
-         "call returns, shared-transport writes, blocked calls, Run / writer goroutines by runtime.Stack, registered keys): ALL action "
+         "call returns, shared-transport writes, blocked calls, Cancel/Stop calls that have not returned (issued on goroutines of their own), "
+         "Run / writer goroutines by runtime.Stack, registered keys): ALL action "
          "words of length <= 4 (thorough 5) over {deliver k1,k2; read c0,c1; write c0; Cancel k1; Stop; cancel call 0}; ALL key sequences "
          "of length <= 5 (thorough 6) over 3 keys x consumption orders (eager, all 6 drain orders), with Cancel(key) and Stop inserted at "
          "EVERY step; 1..3 concurrent writers with the shared transport ok/blocked/failing x Cancel/Stop at every step; seeded random walks "
-         "over 1..8 keys, 4 key functions (source, destination, id, constant), by-reference and serialising transports, transport faults; "
+         "over 1..8 keys, 5 key functions (source, destination, id, constant, names), by-reference and serialising transports, transport faults, "
+         "ticks of the virtual clock (time.Sleep in the bubble; the model's no-op ATick), envelope shapes (no body, zero-byte body) and error kinds "
+         "(io.EOF, errors wrapping io.EOF / context.Canceled / DeadlineExceeded as the shared Read's failure and as the calls' context errors); ALL words of "
+         "length <= 3 (thorough 4) containing a tick + a final 60 s tick; one key's consumer not reading (run loop parked in its hand-off) while "
+         "another key has traffic x {Cancel of either key, Stop, write on either connection, blocked shared transport, tick} at EVERY position, "
+         "also with a blocked shared write in progress; key NAMES that collide under concatenation, are prefixes of one another or empty "
+         "('' c-1 c-11 12 c-112: all sequences of length <= 3, Cancel at every step); the all-default envelope Rpc{} / no body / zero-byte body "
+         "through every key function; "
          "end-to-end: 2..5 real clients - one shared transport - real Demux keyed by source - one real Server object, unary + bidi + "
          "client-stream + server-stream RPCs compared with the direct-connection outcomes",
     assumptions=["payloads and keys are opaque to the Demux (tokens); the key function and the callback return",
